@@ -1242,7 +1242,8 @@ impl std::ops::Add<i32> for Length {
         match self.0 {
             UNDEFINED_LEN => Length::UNDEFINED,
             len => {
-                let o = (len as i32 + rhs) as u32;
+                // two's complement arithmetic on the 32-bit length
+                let o = len.wrapping_add(rhs as u32);
                 debug_assert!(
                     o != UNDEFINED_LEN,
                     "integer overflow (0xFFFF_FFFF reserved for undefined length)"
